@@ -494,5 +494,7 @@ func runC17(c *Ctx) {
 		if la.Distance(lb) > 1e-6 {
 			c.Emit("c17.line.closest", vF(la)+" "+vF(lb)+" "+vF(pt), vF(geometry.NewLine3D(la, lb).ClosestPointOnLine(pt)))
 		}
+		c17History(c)
+		c17History(c)
 	}
 }
